@@ -235,7 +235,9 @@ def main():
                 complete = False
                 if rco == 0:
                     try:
-                        complete = all(open(os.path.join(do, p_), "rb").read() == v for p_, v in ref.items()) and \
+                        # bounded reads: a destination may be a symlink to /dev/full, which reads back zeros without end
+                        # (a run on seeded change C20-6, where sbeppc exits 0 there, took 64 GB before this bound)
+                        complete = all(open(os.path.join(do, p_), "rb").read(len(v) + 1) == v for p_, v in ref.items()) and \
                             all(os.path.isdir(os.path.join(do, d_)) for d_ in dirs)
                     except OSError:
                         complete = False
